@@ -45,6 +45,18 @@ CHECKS = {
         'runs only; its simulation proof is not done (stated in DESIGN.md).',
    technique='Coq refinement proof + lemmas on flagged literals; differential check of the translator rewriting against the explicit form',
    ref='DESIGN.md §6 C04'),
+ 'C05': dict(
+   text='Coq theorem C05_scoping (= the refinement theorem with the environment invariant sub E (locals s)): the generated code, '
+        'whose bound names are flat Python locals of the enclosing rule function, agrees with the lexically scoped specification '
+        '(let binds in its body only, class members see earlier named members, every rule invocation starts empty) for let, '
+        'class fields incl. let/pass/requires, where, |>, <|, data-dependent counts — so a read never observes a value from an '
+        'abandoned alternative, a sibling, a recursive invocation or a shadowing inner let (the let saves/restores the outer '
+        'value when the translator marked it as shadowing; the theorem assumes that mark is placed exactly when the name is in '
+        'scope, which the check verifies on every exported grammar). Correspondence: scoping scenarios + random expressions, '
+        'raw triples and parse outcomes, locals-dependent results.',
+   note=TB + 'Known finding: a let nested in a class member that re-binds an earlier FIELD name of that class (translator does not track class fields as binders). Inline Python is a closed vocabulary; parameters of templates are covered under C06.',
+   technique='Coq refinement proof with environment invariant (flat locals vs lexical scoping) + differential correspondence',
+   ref='DESIGN.md §6 C05'),
  'C08': dict(
    text='Coq theorem C08_three_outcomes: for every well-formed grammar, every parameterless rule or class used as entry '
         'point, every text, start offset and value of fullparse, the model of _run\'s tail and _finalize_parse_info returns the '
